@@ -131,6 +131,8 @@ type Gen struct {
 	Regen       bool
 	regenAt     int
 	regenDone   bool
+	drain       bool
+	drainStep   int
 }
 
 func NewGen(e *Env, prof *Profile) *Gen {
@@ -138,6 +140,7 @@ func NewGen(e *Env, prof *Profile) *Gen {
 	g.horizon = g.r.Range(prof.Horizon[0], prof.Horizon[1])
 	g.quiesce = g.horizon
 	g.regenAt = g.r.Range(g.horizon/5, g.horizon*9/10)
+	g.drain = g.r.Chance(0.2)
 	g.setup()
 	return g
 }
@@ -250,6 +253,27 @@ func (g *Gen) Next() *Step {
 		return nil
 	}
 	r := g.r
+	// drain phase (some runs): near the end every provider withdraws its free capacity in two
+	// odd-sized steps, so that "capacity removed, pledge/pool leftovers" states are reached
+	if g.drain && !g.p.Long && h >= g.horizon-14 && g.drainStep < 2 {
+		st := &Step{Dt: 5}
+		for _, k := range sortedKeys(e.Cur.Node.Pledges) {
+			pl := e.Cur.Node.Pledges[k]
+			a := e.W.ByAddr[k]
+			free := pl.TotalStorage - pl.UsedStorage
+			if a == nil || free <= 0 {
+				continue
+			}
+			n := free
+			if g.drainStep == 0 {
+				n = free/2 + 500_000
+			}
+			st.Ops = append(st.Ops, Op{K: "remove_vstorage", A: a.Idx, N: n, Note: "drain"})
+		}
+		g.drainStep++
+		e.probe("capacity_drain_phase")
+		return st
+	}
 	if g.Regen && !g.regenDone && h >= g.regenAt {
 		g.regenDone = true
 		return &Step{Regen: true}
